@@ -86,3 +86,9 @@ claim("C18", "exploration", "exhaustive enumeration of a construction lattice (p
       "constructed phi (value, range, reversal, mirroring, mutual agreement), and every backbone/chi torsion of 7/14 corpus structures through all four "
       "code paths with the reference formula; the sign inversion of tertiary_v2 is a recorded known finding, every other deviation is a violation.",
       "Reference formula and NeRF construction in mc/ref/reftorsion.py (cross-checked against each other); non-degenerate inputs only.", "DESIGN.md 3/C18")
+
+claim("C17", "exploration", "exhaustive enumeration of a contact lattice and corpus variants under all 32 option combinations on the real code against an O(n^2) enumeration of the definition",
+      "3,500+ two-residue placements bracketing every threshold (sum, sum+0.5) from both sides for all C/N/O/P type pairs, occupancy pairs and residue "
+      "relations, and corpus structures (as is, compressed, jittered), each under all 32 option combinations: the clash list equals the definition as a set, "
+      "each pair once; clashfinder.main's printed maxima equal the maxima over the listed clashes and the CSV lists the same clashes.",
+      "Radii read by name from module constants; nucleotide classification taken from Residue3D.is_nucleotide; absent occupancy judged only under ignore-occupancy.", "DESIGN.md 3/C17")
